@@ -11,7 +11,7 @@ EXPLANATION = ('Field-coverage and sibling-agreement rules over the validators: 
                'in a send-time validator (or by flow control); every field an encoder writes behind a 16-bit length prefix is length-checked by '
                'that packet\'s validators (user-property name and value separately); static rules (non-empty lists, unset packet id, topic / '
                'filter validity, identifier ranges) have their guards; every submit path and the service loop are dominated by validation; '
-               'both validator dispatchers route each packet kind to its own validator.')
+               'both validator dispatchers route each packet kind to its own validator. Added in round 2: send-time validation is given the very alias resolution the encoder applies (the packet measured is the packet written).')
 ASSUMPTIONS = ['not decided: that a conforming operation is never rejected, and the topic-filter grammar over all strings']
 P = 'src/protocol.rs'
 
@@ -176,7 +176,7 @@ def run(ctx):
     ctx.ob(prims.rets_after(vp, [r'^!validate::is_valid_topic\(.*packet\.topic\)\)?$']) == {'Err'}, 'PUBLISH: an invalid topic is always rejected', 'static|Publish|topic', loc=vp.loc())
     ctx.ob(prims.rets_after(vp, [r'^!validate::is_valid_topic\(.*response_topic']) == {'Err'}, 'PUBLISH: an invalid response topic is always rejected', 'static|Publish|response-topic', loc=vp.loc())
     ctx.ob(prims.rets_after(vp, [r'^\(packet\.topic_alias@Some\.0 == 0\)$']) == {'Err'}, 'PUBLISH: topic alias 0 is always rejected', 'static|Publish|alias-zero', loc=vp.loc())
-    ctx.ob(prims.rets_after(vp, [r'^Option::is_some\(packet\.subscription_identifiers\)$']) == {'Err'}, 'PUBLISH: client-side subscription identifiers are always rejected', 'static|Publish|subids', loc=vp.loc())
+    ctx.ob(prims.rets_after(vp, [r'^packet\.subscription_identifiers is Some$']) == {'Err'}, 'PUBLISH: client-side subscription identifiers are always rejected', 'static|Publish|subids', loc=vp.loc())
     for var, fn_ in (('Subscribe', 'subscribe::validate_subscribe_packet_outbound_internal'), ('Unsubscribe', 'unsubscribe::validate_unsubscribe_packet_outbound_internal')):
         v = ctx.fn(fn_)
         errs = prims.err_blocks(v)
@@ -213,11 +213,18 @@ def run(ctx):
         # after the failure the loop goes back to dequeuing (it does not fall through to the encoder with this packet)
         succ, _, _ = sq.graph()
         # (the un-seat just checked makes the `current_operation is Some` edge of the loop head infeasible on this path)
-        after = sq.reach(succ[fl[0].bb], avoid=[c.bb for c in sq.calls('ProtocolState::dequeue_operation')] + prims.edge_nodes_matching(sq, [r'^!Option::is_none\(self\.current_operation\)$']))
+        after = sq.reach(succ[fl[0].bb], avoid=[c.bb for c in sq.calls('ProtocolState::dequeue_operation')] + prims.edge_nodes_matching(sq, [r'^self\.current_operation is Some$']))
         ctx.ob(not (set(c.bb for c in er) & after) and not (set(c.bb for c in sq.calls('Encoder::encode')) & after), 'after the failure the loop continues with the next operation without encoding the rejected one', 'svc|continue', loc=sq.loc())
     vcx = [e for (i, j, s) in sq.stmts() if s['k'] == 'assign' for e in [sq.rvalue_expr(s['rv'], i)] if e[0] == 'agg' and e[1].endswith('OutboundValidationContext')]
     vcx = list({show(e): e for e in vcx}.values())
     ctx.ob(len(vcx) == 1 and show(dict(vcx[0][3]).get('connect_options')) == 'Option::Some{0: self.config.connect_options}', 'the validation context carries the connect options', 'svc|context', loc=sq.loc())
+    # (added after seed C16-2) the packet that is measured is the packet that is written: validation sees the alias resolution the encoder uses
+    ecx = [e for (i, j, s) in sq.stmts() if s['k'] == 'assign' for e in [sq.rvalue_expr(s['rv'], i)] if e[0] == 'agg' and e[1].endswith('EncodingContext')]
+    ecx = list({show(e): e for e in ecx}.values())
+    va_ = show(dict(vcx[0][3]).get('outbound_alias_resolution')) if len(vcx) == 1 else None
+    ea_ = show(dict(ecx[0][3]).get('outbound_alias_resolution')) if len(ecx) == 1 else None
+    ctx.ob(va_ is not None and ea_ is not None and va_ == 'Option::Some{0: %s}' % ea_ and 'compute_outbound_alias_resolution' in ea_,
+           'send-time validation (maximum packet size, alias range) is given the very topic-alias resolution the encoder will apply (validation: %s; encoder: %s)' % (va_, ea_), 'svc|context-alias', loc=sq.loc())
     ns = [(i, s) for (i, s, pe, rve) in sq.field_writes() if show(pe) == 'validation_context.negotiated_settings' and 'self.current_settings' in show(rve)]
     ctx.ob(len(ns) == 1, 'the validation context carries the current negotiated settings', 'svc|context-settings', loc=sq.loc())
     nstop = 0
